@@ -73,9 +73,19 @@ def ex_src(e):
     raise ValueError(e)
 
 
+PARENT_PROBES = {
+    "parent_is_none": "(loop.parent is None)",
+    "parent_bool": "bool(loop.parent)",
+    "parent_guard": "(loop.parent.index if loop.parent else -1)",
+    "parent_depth": "pdepth(loop)",
+}
+
+
 def loop_src(attr):
     if attr == "cycle":
         return "loop.cycle('p', 'q', 'r')"
+    if attr in PARENT_PROBES:
+        return PARENT_PROBES[attr]
     return "loop." + attr
 
 
@@ -536,6 +546,8 @@ def _n_ex(e, lp):
 def _n_loop(attr, lp):
     if lp is None:
         return "noloop()"
+    if attr in PARENT_PROBES:
+        return PARENT_PROBES[attr].replace("loop", lp)
     if attr == "cycle":
         return "%s.cycle('p', 'q', 'r')" % lp
     return "%s.%s" % (lp, attr)
@@ -582,25 +594,27 @@ def _n_callable(N, name, params, fl, body, lp, enable_loop):
     N.ind -= 1
 
 
-def _n_hoist(N, body, lp, enable_loop):
+def _n_hoist(N, body, lp, enable_loop, top=False):
     """the defs of a scope are visible in the whole scope: define them first (one level; nested control
     structures belong to the scope).  `loop` inside a def that sits textually inside a `% for` is that loop's
     object (closure) - the generator calls such a def only inside that loop."""
     for n in body:
         k = n[0]
         if k == "def":
-            _n_callable(N, "d%d" % n[1], n[2], n[3], n[4], lp, enable_loop)
+            # a <%def> in the body of the template (also under control lines) is a top-level callable of the
+            # module: it has no enclosing loop; elsewhere it is a closure
+            _n_callable(N, "d%d" % n[1], n[2], n[3], n[4], None if top else lp, enable_loop)
         elif k == "for":
             # defs inside the loop body close over the loop object, which exists only while the loop runs:
             # they are defined inside the loop (see _n_body)
             if n[4] is not None:
-                _n_hoist(N, n[4], lp, enable_loop)
+                _n_hoist(N, n[4], lp, enable_loop, top)
         elif k in ("if", "while", "try", "with"):
             for b in sub_bodies(n):
-                _n_hoist(N, b, lp, enable_loop)
+                _n_hoist(N, b, lp, enable_loop, top)
 
 
-def _n_body(N, body, lp, enable_loop):
+def _n_body(N, body, lp, enable_loop, top=False):
     for n in body:
         k = n[0]
         if k == "text":
@@ -629,13 +643,13 @@ def _n_body(N, body, lp, enable_loop):
                 N.w("%s %s:" % ("if" if j == 0 else "elif", _n_cond(c, lp)))
                 N.ind += 1
                 N.w("pass")
-                _n_body(N, b, lp, enable_loop)
+                _n_body(N, b, lp, enable_loop, top)
                 N.ind -= 1
             if n[2] is not None:
                 N.w("else:")
                 N.ind += 1
                 N.w("pass")
-                _n_body(N, n[2], lp, enable_loop)
+                _n_body(N, n[2], lp, enable_loop, top)
                 N.ind -= 1
         elif k == "for":
             u = N.fresh()
@@ -646,38 +660,38 @@ def _n_body(N, body, lp, enable_loop):
             N.w("pass")
             if enable_loop:
                 N.w("__lp%d = NLoop(__i%d, len(__items%d), %s)" % (u, u, u, lp if lp else "None"))
-            _n_hoist(N, n[3], inner, enable_loop)
-            _n_body(N, n[3], inner, enable_loop)
+            _n_hoist(N, n[3], inner, enable_loop, top)
+            _n_body(N, n[3], inner, enable_loop, top)
             N.ind -= 1
             if n[4] is not None:
                 N.w("else:")
                 N.ind += 1
                 N.w("pass")
-                _n_body(N, n[4], lp, enable_loop)
+                _n_body(N, n[4], lp, enable_loop, top)
                 N.ind -= 1
         elif k == "while":
             N.w("while below(%d):" % n[1])
             N.ind += 1
             N.w("pass")
-            _n_body(N, n[2], lp, enable_loop)
+            _n_body(N, n[2], lp, enable_loop, top)
             N.ind -= 1
         elif k == "try":
             N.w("try:")
             N.ind += 1
             N.w("pass")
-            _n_body(N, n[1], lp, enable_loop)
+            _n_body(N, n[1], lp, enable_loop, top)
             N.ind -= 1
             for exc, b in n[2]:
                 N.w("except:" if exc is None else "except %s:" % exc)
                 N.ind += 1
                 N.w("pass")
-                _n_body(N, b, lp, enable_loop)
+                _n_body(N, b, lp, enable_loop, top)
                 N.ind -= 1
         elif k == "with":
             N.w("with cm(%r) as v%d:" % (n[1], n[2]))
             N.ind += 1
             N.w("pass")
-            _n_body(N, n[3], lp, enable_loop)
+            _n_body(N, n[3], lp, enable_loop, top)
             N.ind -= 1
         elif k == "call":
             u = N.fresh()
@@ -710,11 +724,11 @@ def native_source(body, enable_loop=True):
     N.ind += 1
     N.w("caller = None")
     N.w("__out = __dst")
-    _n_hoist(N, body, None, enable_loop)
+    _n_hoist(N, body, None, enable_loop, True)
     N.w("def __run():")
     N.ind += 1
     N.w("pass")
-    _n_body(N, body, None, enable_loop)
+    _n_body(N, body, None, enable_loop, True)
     N.ind -= 1
     N.w("__run()")
     N.ind -= 1
@@ -725,7 +739,7 @@ def native_run(body, k, enable_loop=True, loopvar="LOOPVAR"):
     """-> (outcome 'ok'|'boom'|'keyerror'|'error', output so far)"""
     from harness import c03_rt as R
     src = native_source(body, enable_loop)
-    env = {"boom": R.boom, "kboom": R.kboom, "below": R.below, "Boom": R.Boom, "cm": R.cm,
+    env = {"boom": R.boom, "kboom": R.kboom, "below": R.below, "Boom": R.Boom, "cm": R.cm, "pdepth": R.pdepth,
            "closedcount": R.closedcount, "NLoop": R.NLoop, "NCaller": R.NCaller, "noloop": R.noloop}
     for i in range(6):
         env["flt%d" % i] = getattr(R, "flt%d" % i)
@@ -879,6 +893,8 @@ class _Sc:
         self.loop = None          # None | "direct" (a % for of this callable encloses) | "closure"
         self.nested_for = False   # two % for of this callable enclose: loop.parent.index allowed
         self.unsized = False      # the innermost for iterates a generator / iterator
+        self.no_parent = False    # inside the `% else:` of a `% for`: what `loop.parent` of a loop there is, is left open
+        self.unsized_chain = False  # some loop `loop.parent…` can reach iterates one (bool() of it calls len())
         self.buffering = False
         self.top = True
         self.in_block = False
@@ -938,6 +954,11 @@ class Gen:
             attrs += ["last", "reverse_index"]
         if sc.nested_for and sc.loop == "direct":
             attrs += ["parent.index"]
+        # `loop.parent` of outermost and nested loops alike: None-ness, truth value, the guard idiom, the chain
+        if not sc.no_parent:
+            attrs += ["parent_is_none", "parent_depth"]
+            if not sc.unsized_chain:
+                attrs += ["parent_bool", "parent_guard"]
         return r.choice(attrs + ["index", "index"])
 
     # -- expressions
@@ -1113,7 +1134,8 @@ class Gen:
             it = [kind, [self.expr(sc, 1, loop_ok=r.random() < 0.3 and not sc.no_loopctx) for _ in range(n)]]
         use_loop = r.random() < self.k.p_loop_use and self.k.enable_loop and not sc.no_loopctx
         s2 = sc.sub(depth=d, in_loop=True, loop="direct" if (use_loop or sc.loop == "direct") else sc.loop,
-                    nested_for=(sc.loop == "direct"), unsized=kind in ("gen", "iter"))
+                    nested_for=(sc.loop == "direct"), unsized=kind in ("gen", "iter"),
+                    unsized_chain=sc.unsized_chain or kind in ("gen", "iter"))
         if not use_loop and sc.loop:
             # `loop` inside this body would denote this loop: LoopVariable then mangles it
             s2.loop = "direct"
@@ -1123,7 +1145,7 @@ class Gen:
         body = self.body(s2)
         # the `% else:` clause runs after exhaustion but before `% endfor`: the property text does not say which
         # loop `loop` denotes there (mako: still this loop, index = n) - `loop` is not used in it
-        orelse = self.body(sc.sub(depth=d, loop=None, nested_for=False)) \
+        orelse = self.body(sc.sub(depth=d, loop=None, nested_for=False, no_parent=True)) \
             if (r.random() < 0.22 and not self.k.lowerable) else None
         o = self.opts(3)
         node = ["for", v, it, body, orelse, o]
